@@ -9,6 +9,7 @@ PROPS = {
     'C10': {'harness': ['harness/C10_state.py']},
     'C11': {'harness': ['harness/C11_dirhash.py']},
     'C15': {'harness': ['harness/C15_share.py']},
+    'C18': {'harness': ['harness/C18_paths.py']},
     'C19': {'harness': ['harness/C19_retain.py']},
     'C16': {'harness': ['harness/C16_dirs.py']},
     'C17': {'harness': ['harness/C17_subst.py']},
